@@ -2,6 +2,9 @@ import Infretis.Lemmas.MovesRat
 import Infretis.Lemmas.MovesMember
 import Infretis.Lemmas.MovesWitness
 import Infretis.Lemmas.MovesWfB
+import Infretis.Lemmas.MovesTable
+import Infretis.Lemmas.MovesWfW
+import Infretis.Lemmas.MovesOwn
 /-!
 # C09 — accepted paths belong to their ensemble; rejections change nothing
 
@@ -500,5 +503,531 @@ example : (shoot .repaired { exIn with allowMax := true, xi := 0 }).toOption.map
   rw [e] at h
   rw [h]
   exact exIn_allowmax_eval
+
+
+/-! ## Extension: status tables, dispatcher, `run_md` composed, wire-fencing weight
+    (model `Infretis/Model/MovesRun.lean`) -/
+
+/-! ### the status table of `shoot` -/
+
+/-- **Status table (total).** For every input — completed or raising — the status of `shoot` is the table entry
+    `statusOf` of the stage the move reached (`shootOutcome`: kick refused / backward failed with its length / wrong
+    end / forward failed with the pasted length / the three final path tests); the error kinds coincide. -/
+theorem shoot_status_table (v : Variant) (i : ShootIn) :
+    (shoot v i).map (·.status) = (shootOutcome v i).map (statusOf i.maxlength) := shoot_status_eq v i
+
+/-- for a completed move: its outcome exists, the status is the table entry, and the move reports acceptance exactly
+    when the table entry is `ACC` -/
+theorem shoot_status_by_table (v : Variant) (i : ShootIn) (o : ShootOut) (h : shoot v i = .ok o) :
+    ∃ oc, shootOutcome v i = .ok oc ∧ o.status = statusOf i.maxlength oc ∧
+      (o.accept = true ↔ statusOf i.maxlength oc = .ACC) := by
+  obtain ⟨oc, h1, h2⟩ := shoot_table_of_ok v i o h
+  exact ⟨oc, h1, h2, by rw [← h2]; exact accept_iff_status_acc v i o h⟩
+
+example : (shootOutcome .repaired exIn).toOption = some (.final false false true) ∧
+    (shootOutcome .repaired { exIn with forw := [2, 2, 2] }).toOption = some (.forwFail 6) := by
+  constructor <;> decide +kernel
+
+/-- **Every status characterised.** The table read backwards: each status string belongs to exactly one stage (two for
+    `ACC`), `NSG` never comes out of a shooting move, and `ACC` requires both propagations to have succeeded, no
+    forbidden left end, and a crossing of the middle interface unless the ensemble allows both start sides. -/
+theorem status_table_inverse (ML : Nat) (oc : Outcome) :
+    (statusOf ML oc = .KOB ↔ oc = .kob) ∧
+    (statusOf ML oc = .BTL ↔ ∃ n, oc = .backFail n ∧ n + 1 < ML) ∧
+    (statusOf ML oc = .BTX ↔ ∃ n, oc = .backFail n ∧ ML ≤ n + 1) ∧
+    (statusOf ML oc = .BWI ↔ oc = .wrongEnd) ∧
+    (statusOf ML oc = .FTL ↔ ∃ n, oc = .forwFail n ∧ n ≠ ML) ∧
+    (statusOf ML oc = .FTX ↔ oc = .forwFail ML) ∧
+    (statusOf ML oc = .ZL ↔ ∃ b c, oc = .final true b c) ∧
+    (statusOf ML oc = .NCR ↔ oc = .final false false false) ∧
+    (statusOf ML oc = .ACC ↔ ∃ b c, oc = .final false b c ∧ (b = true ∨ c = true)) ∧
+    statusOf ML oc ≠ .NSG := by
+  cases oc with
+  | kob => simp [statusOf]
+  | backFail n =>
+    simp only [statusOf]
+    by_cases h : n + 1 ≥ ML
+    · simp [h]
+    · simp [h]; omega
+  | wrongEnd => simp [statusOf]
+  | forwFail n =>
+    simp only [statusOf]
+    by_cases h : n = ML
+    · simp [h]
+    · simp [h]
+  | final z b c => cases z <;> cases b <;> cases c <;> simp [statusOf]
+
+example : statusOf 10 (.backFail 9) = .BTX ∧ statusOf 10 (.backFail 8) = .BTL ∧ statusOf 10 (.forwFail 10) = .FTX ∧
+    statusOf 10 (.final false false true) = .ACC ∧ statusOf 10 (.final false false false) = .NCR := by decide
+
+/-- **Every status of the table is produced by the move**: nine concrete inputs (variants of `exIn`), one per status
+    string, evaluated through `shoot` itself. -/
+theorem status_table_onto :
+    (shoot .repaired exIn).toOption.map (·.status) = some .ACC ∧
+    (shoot .repaired { exIn with kick := 4 }).toOption.map (·.status) = some .KOB ∧
+    (shoot .repaired { exIn with back := [3, 3, 3, 3, 3, 3, 3, 3, 3, 3, 3, 3] }).toOption.map (·.status) = some .BTL ∧
+    (shoot .repaired { exIn with maxlength := 4, back := [3, 3, 3, 3, 3, 3] }).toOption.map (·.status) = some .BTX ∧
+    (shoot .repaired { exIn with back := [3, 7] }).toOption.map (·.status) = some .BWI ∧
+    (shoot .repaired { exIn with forw := [2, 2, 2] }).toOption.map (·.status) = some .FTL ∧
+    (shoot .repaired { exIn with maxlength := 5, forw := [2, 2, 2] }).toOption.map (·.status) = some .FTX ∧
+    (shoot .repaired { exIn with sc := ⟨false, true⟩, back := [3, 7], forw := [2, -1] }).toOption.map (·.status) = some .ZL ∧
+    (shoot .repaired { exIn with m := 4, forw := [2, -1] }).toOption.map (·.status) = some .NCR := by
+  refine ⟨by rw [exIn_eval]; rfl, ?_, ?_, ?_, ?_, by rw [exIn_reject_eval]; rfl, ?_, ?_, ?_⟩ <;> decide +kernel
+
+/-! ### the status table of `wire_fencing` -/
+
+theorem wf_status_table (v : Variant) (i : WfIn) :
+    (wireFencing v i).map (·.status) = (wfOutcome v i).map wfStatusOf := wf_status_eq v i
+
+/-- **Exact acceptance rule of wire fencing, every status characterised.** A completed `wire_fencing` call ended at
+    exactly one stage of `wfOutcome`; its status is `NSG` iff there was no frame to shoot from or no jump was accepted,
+    `FTX` iff the extender's result reached `maxlength`, `BWI` iff neither end of the extended path lies on the start
+    side, and it is accepted (`ACC`) iff all of: weight ≠ 0, at least one accepted jump, extended path shorter than
+    `maxlength`, `subt_acceptance` found the start side (possibly after reversal), and the move's own start assertion
+    holds.  No other status string comes out. -/
+theorem wf_status_by_table (v : Variant) (i : WfIn) (o : WfOut) (h : wireFencing v i = .ok o) :
+    ∃ oc, wfOutcome v i = .ok oc ∧ o.status = wfStatusOf oc ∧
+      (o.status = .NSG ↔ oc = .noFrames ∨ oc = .noSegment) ∧
+      (o.status = .FTX ↔ ∃ n, oc = .extTooLong n) ∧
+      (o.status = .BWI ↔ oc = .wrongStart) ∧
+      (o.accept = true ↔ ∃ s n, oc = .accepted s n) ∧
+      (o.status = .NSG ∨ o.status = .FTX ∨ o.status = .BWI ∨ o.status = .ACC) := by
+  obtain ⟨oc, h1, h2⟩ := wf_table_of_ok v i o h
+  refine ⟨oc, h1, h2, ?_, ?_, ?_, ?_, ?_⟩
+  · rw [h2]; cases oc <;> simp [wfStatusOf]
+  · rw [h2]; cases oc <;> simp [wfStatusOf]
+  · rw [h2]; cases oc <;> simp [wfStatusOf]
+  · rw [wf_accept_iff_status_acc v i o h, h2]; cases oc <;> simp [wfStatusOf]
+  · rw [h2]; cases oc <;> simp [wfStatusOf]
+
+/-- what the stage `accepted` means in terms of the parts of the move (the rule the code really applies) -/
+theorem wf_accepted_iff (v : Variant) (i : WfIn) (s n : Nat) :
+    wfOutcome v i = .ok (.accepted s n) ↔
+      WF.weight i.m (capOf i) i.old ≠ 0 ∧
+      ∃ seg segTO d st1 t1 to1 st2 t2 to2 first,
+        wfJumps v i i.nJumps i.jumps (wfSeg0 i) i.oldTimeOrigin 0 [.random] = .ok (seg, segTO, s, d) ∧ s ≠ 0 ∧
+        extender v i seg segTO = .ok (true, st1, t1, to1) ∧
+        subtAcceptance i t1 to1 = .ok (true, st2, t2, to2) ∧
+        i.l ≤ i.r ∧ t2.head? = some first ∧ scIs i.sc (WF.startPoint i.l i.r first) = true ∧ n = t2.length := by
+  unfold wfOutcome
+  constructor
+  · intro h
+    split at h
+    · cases h
+    · rename_i hw
+      split at h
+      · cases h
+      · rename_i seg segTO succ d hj
+        split at h
+        · cases h
+        · rename_i hs
+          split at h
+          · cases h
+          · rename_i ok1 st1 t1 to1 he
+            split at h
+            · cases h
+            · rename_i hok1
+              split at h
+              · cases h
+              · rename_i ok2 st2 t2 to2 hsub
+                split at h
+                · cases h
+                · rename_i hok2
+                  split at h
+                  · cases h
+                  · rename_i hlr
+                    split at h
+                    · cases h
+                    · rename_i first hf
+                      split at h
+                      · cases h
+                      · rename_i hsc
+                        simp only [Except.ok.injEq, WfOutcome.accepted.injEq] at h
+                        obtain ⟨e1, e2⟩ := h
+                        subst e1
+                        have hok1' : ok1 = true := by simpa using hok1
+                        have hok2' : ok2 = true := by simpa using hok2
+                        subst hok1' hok2'
+                        exact ⟨hw, seg, segTO, d, st1, t1, to1, st2, t2, to2, first, hj, hs, he, hsub, by omega, hf,
+                          by simpa using hsc, e2.symm⟩
+  · rintro ⟨hw, seg, segTO, d, st1, t1, to1, st2, t2, to2, first, hj, hs, he, hsub, hlr, hf, hsc, hn⟩
+    simp only [hw, if_false, hj, hs, he, hsub, hf, hsc, Bool.true_eq_false, hn]
+    have : ¬ i.r < i.l := by omega
+    simp [this]
+
+example : (wfOutcome .repaired wfEx).toOption = some (.accepted 1 6) ∧
+    (wfOutcome .repaired { wfEx with jumps := [{ idx := 2, kick := 7, back := [], forw := [] }] }).toOption
+      = some .noSegment := by
+  constructor <;> decide +kernel
+
+/-! ### own-ensemble weight of an accepted wire-fencing path -/
+
+/-- **High-acceptance weight is non-zero.** If `wire_fencing` accepts, the ensemble's start condition is one-sided
+    and no frame of the returned path lies exactly ON the cap interface, then the path has positive wire-fencing weight
+    for `(m, cap)` — the frames between the bounding frames of the last accepted shooting point count — and
+    `compute_weight(path, [l, m, cap], "wf")`, the entry `calc_cv_vector` stores for the own ensemble, is a positive
+    number. -/
+theorem wf_acc_weight_pos (v : Variant) (i : WfIn) (o : WfOut) (h : wireFencing v i = .ok o) (hs : o.status = .ACC)
+    (hsc : ¬ (i.scEns.hasL = true ∧ i.scEns.hasR = true))
+    (hgen : ∀ y ∈ o.path, y ≠ capOf i) :
+    0 < WF.weight i.m (capOf i) o.path ∧
+    ∃ w, WF.computeWeight o.path i.l i.m (capOf i) true = .ok w ∧ 0 < w := by
+  obtain ⟨hw, hl, hne⟩ := wf_acc_weight_pos_aux v i o h hs hsc hgen
+  refine ⟨hw, ?_⟩
+  unfold WF.computeWeight
+  simp only [hl, if_true]
+  cases hp : o.path with
+  | nil => exact absurd hp hne
+  | cons a t =>
+    have hlast : ∃ z, (a :: t).getLast? = some z := ⟨(a :: t).getLast (by simp), List.getLast?_eq_some_getLast (by simp)⟩
+    obtain ⟨z, hz⟩ := hlast
+    rw [hp] at hw
+    simp only [List.head?_cons, hz]
+    split
+    · exact ⟨_, rfl, by omega⟩
+    · exact ⟨_, rfl, hw⟩
+
+example : ∃ o, wireFencing .repaired wfEx = .ok o ∧ o.status = .ACC ∧
+    ¬ (wfEx.scEns.hasL = true ∧ wfEx.scEns.hasR = true) ∧ (∀ y ∈ o.path, y ≠ capOf wfEx) ∧
+    0 < WF.weight wfEx.m (capOf wfEx) o.path := by
+  have h := wfEx_eval
+  cases hs : wireFencing .repaired wfEx with
+  | error e => rw [hs] at h; cases h
+  | ok o =>
+    rw [hs] at h; simp only [Except.toOption, Option.some.injEq] at h; subst h
+    exact ⟨_, rfl, rfl, by decide, by decide, by decide⟩
+
+/-- **Boundary counterexample (why the hypothesis `no frame on the cap` is there).** A frame exactly on the cap is
+    "inside" for the engine loop (`add_to_path` stops on `> right`) but "right of the region" for the weight scan
+    (`>= right`): the sub-path `1, 6, 3, 6, 1` with `m = 2`, cap `= 6` is accepted by the sub-ensemble shoot (it
+    crosses `m`), the move is accepted with the path `-1, 1, 6, 3, 6, 1, -1`, and that path has wire-fencing weight 0
+    in its own ensemble.  Measure-zero for real-valued order parameters; recorded as an observation. -/
+theorem wf_weight_zero_on_cap_counterexample :
+    ∃ o, wireFencing .repaired wfCapEx = .ok o ∧ o.status = .ACC ∧ o.accept = true ∧
+      o.path = [-1, 1, 6, 3, 6, 1, -1] ∧ capOf wfCapEx = 6 ∧ (6 : Int) ∈ o.path ∧
+      WF.weight wfCapEx.m (capOf wfCapEx) o.path = 0 ∧
+      WF.computeWeight o.path wfCapEx.l wfCapEx.m (capOf wfCapEx) true = .ok 0 := by
+  have h := wfCapEx_eval
+  cases hs : wireFencing .repaired wfCapEx with
+  | error e => rw [hs] at h; cases h
+  | ok o =>
+    rw [hs] at h; simp only [Except.toOption, Option.some.injEq] at h; subst h
+    exact ⟨_, rfl, rfl, rfl, rfl, by decide, by decide, by decide, by decide⟩
+
+/-! ### `select_shoot`: the dispatcher -/
+
+/-- **Routing.** `select_shoot` runs a shooting move exactly for a single picked ensemble whose `mc_move` is "sh",
+    wire fencing exactly for a single one with "wf", a zero swap exactly when the number of picked ensembles is not 1
+    and the key −1 is present (QuanTIS iff the flag is set); everything else is a `KeyError` before any MD. -/
+theorem route_table (n : Nat) (hm : Bool) (mv : MoveKey) (q : Bool) :
+    (route n hm mv q = .shoot ↔ n = 1 ∧ mv = .sh) ∧
+    (route n hm mv q = .wireFencing ↔ n = 1 ∧ mv = .wf) ∧
+    (route n hm mv q = .quantisSwap ↔ n ≠ 1 ∧ hm = true ∧ q = true) ∧
+    (route n hm mv q = .retisSwap ↔ n ≠ 1 ∧ hm = true ∧ q = false) ∧
+    (route n hm mv q = .keyError ↔ (n = 1 ∧ mv = .other) ∨ (n ≠ 1 ∧ hm = false)) := by
+  unfold route
+  by_cases h1 : n = 1
+  · simp only [h1, if_true]
+    cases mv <;> simp
+  · simp only [h1, if_false]
+    cases hm <;> cases q <;> simp [h1]
+
+example : route 1 false .wf true = .wireFencing ∧ route 2 true .sh false = .retisSwap ∧ route 1 true .other false = .keyError := by
+  decide
+
+/-! ### `run_md` for one-ensemble jobs, composed: route → move → bookkeeping → weights → replacement -/
+
+/-- **`run_md` commits exactly on `ACC`** (shooting and wire fencing alike): the live path is replaced, and the trial
+    gets a weight vector, iff the move's status is `ACC`; then the live path is the trial path. -/
+theorem run_md_one_commits_iff_acc (v : Variant) (cfg : MdCfg) (x : OneIn) (o : MdOneOut)
+    (h : runMdOne v cfg x = .ok o) :
+    (o.replaced = true ↔ o.status = .ACC) ∧ (o.weights.isSome = true ↔ o.status = .ACC) ∧
+    (o.status = .ACC → ∃ trial, runMove v x = .ok (.ACC, trial, false) ∧ o.live = trial ∧ o.trialLen = trial.length) := by
+  unfold runMdOne at h
+  cases hm : runMove v x with
+  | error e => rw [hm] at h; cases h
+  | ok r =>
+    obtain ⟨st, trial, isOld⟩ := r
+    rw [hm] at h
+    simp only at h
+    split at h
+    · cases h
+    · split at h
+      · rename_i mn mx _ _
+        by_cases hs : st = .ACC
+        · simp only [hs, if_true] at h
+          split at h
+          · cases h
+          · simp only [Except.ok.injEq] at h
+            subst h
+            have hold : isOld = false := by
+              subst hs
+              cases x with
+              | sh i =>
+                simp only [runMove] at hm
+                repeat' split at hm
+                all_goals first
+                  | (cases hm)
+                  | (simp only [Except.ok.injEq, Prod.mk.injEq] at hm; exact hm.2.2.symm)
+              | wf i =>
+                simp only [runMove] at hm
+                split at hm
+                · cases hm
+                · rename_i wo hwo
+                  simp only [Except.ok.injEq, Prod.mk.injEq] at hm
+                  obtain ⟨e1, _, e3⟩ := hm
+                  rw [← e3]
+                  cases hro : wo.returnedOld with
+                  | false => rfl
+                  | true =>
+                    have := ((wf_reject_old_frames v _ wo hwo).1 hro).2.1
+                    rw [e1] at this; cases this
+              | other o => simp [runMove] at hm
+            subst hold
+            subst hs
+            simp only [Bool.not_false, Option.isSome_some]
+            exact ⟨by simp, by simp, fun _ => ⟨_, rfl, rfl, rfl⟩⟩
+        · simp only [hs, if_false, Except.ok.injEq] at h
+          subst h
+          simp [hs]
+      · cases h
+
+/-- **Rejections change nothing (composed, shooting and wire fencing).** Whenever `run_md` completes with a status
+    other than `ACC`, the ensemble still holds its old path with exactly its old frames, nothing was replaced and no
+    weight vector was assigned. -/
+theorem run_md_one_rejection_changes_nothing (v : Variant) (cfg : MdCfg) (x : OneIn) (o : MdOneOut)
+    (h : runMdOne v cfg x = .ok o) (hs : o.status ≠ .ACC) :
+    o.live = x.old ∧ o.replaced = false ∧ o.weights = none := by
+  unfold runMdOne at h
+  cases hm : runMove v x with
+  | error e => rw [hm] at h; cases h
+  | ok r =>
+    obtain ⟨st, trial, isOld⟩ := r
+    rw [hm] at h
+    simp only at h
+    split at h
+    · cases h
+    · split at h
+      · by_cases hst : st = .ACC
+        · simp only [hst, if_true] at h
+          split at h
+          · cases h
+          · simp only [Except.ok.injEq] at h
+            subst h
+            exact absurd rfl hs
+        · simp only [hst, if_false, Except.ok.injEq] at h
+          subst h
+          exact ⟨rfl, rfl, rfl⟩
+      · cases h
+
+/-- **Accepted wire-fencing jobs, end to end.** If `run_md` completes a wire-fencing job with `ACC` (sane ensemble,
+    extender streams at least `maxlength` long), the path now held by the ensemble is a path of the ensemble, starts
+    on the side `ens_set["start_cond"]` names, is shorter than `maxlength`, and carries a weight vector. -/
+theorem run_md_one_wf_acc_member (v : Variant) (cfg : MdCfg) (i : WfIn) (o : MdOneOut)
+    (h : runMdOne v cfg (.wf i) = .ok o) (hs : o.status = .ACC)
+    (hlm : i.l ≤ i.m) (hcr : capOf i ≤ i.r)
+    (hlb : i.maxlength ≤ i.extBack.length) (hlf : i.maxlength ≤ i.extForw.length) :
+    EnsPath i.l i.r o.live ∧ o.live.length < i.maxlength ∧ o.replaced = true ∧ o.weights.isSome = true ∧
+    (∃ first, o.live.head? = some first ∧
+      ((first ≤ i.l ∧ i.scEns.hasL = true ∧ i.scEns.hasR = false) ∨
+       (i.r ≤ first ∧ i.scEns.hasL = false ∧ i.scEns.hasR = true))) ∧
+    (∃ y ∈ o.live, i.m ≤ y ∧ y < capOf i) := by
+  obtain ⟨h1, h2, h3⟩ := run_md_one_commits_iff_acc v cfg _ o h
+  obtain ⟨trial, hm, hl, _⟩ := h3 hs
+  simp only [runMove] at hm
+  split at hm
+  · cases hm
+  · rename_i wo hwo
+    simp only [Except.ok.injEq, Prod.mk.injEq] at hm
+    obtain ⟨hst, e2, _⟩ := hm
+    obtain ⟨m1, m2, m3, m4, _⟩ := wf_acc_member v _ wo hwo hst hlm hcr hlb hlf
+    rw [hl, ← e2]
+    exact ⟨m1, m3, h1.2 hs, h2.2 hs, m2, m4⟩
+
+/-- **Accepted shooting jobs, end to end.** If `run_md` completes a shooting job with `ACC`, the path now held by the
+    ensemble starts strictly outside on a side `ens_set["start_cond"]` allows, ends strictly outside, stays inside in
+    between, contains the kicked shooting point, is at most `maxlength` long and carries a weight vector. -/
+theorem run_md_one_sh_acc_member (v : Variant) (cfg : MdCfg) (i : ShootIn) (o : MdOneOut)
+    (h : runMdOne v cfg (.sh i) = .ok o) (hs : o.status = .ACC) :
+    ∃ sce xB xF mid, i.scEns = some sce ∧ o.live = xB :: (mid ++ [xF]) ∧
+      ((xB < i.l ∧ sce.hasL = true) ∨ (i.r < xB ∧ sce.hasR = true)) ∧ (xF < i.l ∨ i.r < xF) ∧
+      (∀ y ∈ mid, i.l ≤ y ∧ y ≤ i.r) ∧ i.kick ∈ mid ∧ o.live.length ≤ i.maxlength ∧
+      o.replaced = true ∧ o.weights.isSome = true := by
+  obtain ⟨h1, h2, h3⟩ := run_md_one_commits_iff_acc v cfg _ o h
+  obtain ⟨trial, hm, hl, _⟩ := h3 hs
+  simp only [runMove] at hm
+  split at hm
+  · cases hm
+  · rename_i sce hsce
+    split at hm
+    · cases hm
+    · rename_i so hso
+      simp only [Except.ok.injEq, Prod.mk.injEq] at hm
+      obtain ⟨hst, e2, _⟩ := hm
+      obtain ⟨preB, preF, restB, restF, xB, xF, _, _, htr, hstart, hxF, hin, _, _, _, _, hlen, _⟩ :=
+        shoot_acc_member v _ so hso hst
+      refine ⟨sce, xB, xF, preB.reverse ++ i.kick :: preF, hsce, ?_, hstart, hxF, hin, by simp, ?_, h1.2 hs, h2.2 hs⟩
+      · rw [hl, ← e2, htr]; simp
+      · rw [hl, ← e2]; exact hlen
+
+example : (runMdOne .repaired (mdCfgEx false) (.sh { exIn with scEns := some ⟨true, false⟩ })).toOption.map
+      (fun o => (o.status, o.live, o.weights, o.replaced)) = some (.ACC, [-1, 3, 2, 2, 5], some [1, 1, 0], true) := by
+  rw [mdEx_eval]; rfl
+
+example : (runMdOne .repaired (mdCfgEx true) (.wf wfEx)).toOption.map
+      (fun o => (o.status, o.live, o.weights, o.replaced)) = some (.ACC, [-1, 0, 1, 2, 3, 5], some [1, 6, 0], true) := by
+  rw [mdWfEx_eval]; rfl
+
+example : (runMdOne .repaired (mdCfgEx true)
+      (.wf { wfEx with jumps := [{ idx := 2, kick := 7, back := [], forw := [] }] })).toOption.map
+      (fun o => (o.status, o.live, o.weights, o.replaced)) = some (.NSG, [-1, 1, 2, 1, -1], none, false) := by
+  rw [mdWfRejEx_eval]; rfl
+
+/-! ### own-ensemble weight, end to end through `run_md` -/
+
+
+/-- on `ACC` the weight vector `run_md` stores is `calc_cv_vector` of the trial path, which becomes the live path -/
+theorem run_md_one_acc_weights (v : Variant) (cfg : MdCfg) (x : OneIn) (o : MdOneOut)
+    (h : runMdOne v cfg x = .ok o) (hs : o.status = .ACC) :
+    ∃ trial w, runMove v x = .ok (.ACC, trial, false) ∧ mdWeights cfg trial = .ok w ∧ o.weights = some w ∧
+      o.live = trial := by
+  obtain ⟨trial, hm, hl, _⟩ := (run_md_one_commits_iff_acc v cfg x o h).2.2 hs
+  unfold runMdOne at h
+  rw [hm] at h
+  simp only at h
+  split at h
+  · cases h
+  · split at h
+    · simp only [if_true] at h
+      split at h
+      · cases h
+      · rename_i w hw
+        simp only [Except.ok.injEq] at h
+        subst h
+        exact ⟨trial, w, hm, hw, rfl, rfl⟩
+    · cases h
+
+/-- **Own-ensemble weight, shooting job, end to end.** `run_md` completes a shooting job with `ACC`; the ensemble's
+    start condition is one-sided; `md_items` is consistent with the ensemble (its middle interface is entry `k = ens_num`
+    of the interface list, its move is not wire fencing).  Then entry `k` of the stored weight vector is 1. -/
+theorem run_md_one_sh_own_weight (v : Variant) (cfg : MdCfg) (i : ShootIn) (o : MdOneOut)
+    (h : runMdOne v cfg (.sh i) = .ok o) (hs : o.status = .ACC)
+    (sce : StartCond) (hsce : i.scEns = some sce) (hone : ¬ (sce.hasL = true ∧ sce.hasR = true))
+    (k : Nat) (hk : cfg.ensNum = (k : Int)) (hm : cfg.interfaces.dropLast[k]? = some i.m)
+    (hf : cfg.movesTail[k]? = some false) :
+    ∃ ws, o.weights = some ws ∧ ws[k]? = some 1 := by
+  obtain ⟨trial, w, hmv, hw, how, _⟩ := run_md_one_acc_weights v cfg _ o h hs
+  simp only [runMove, hsce] at hmv
+  split at hmv
+  · cases hmv
+  · rename_i so hso
+    simp only [Except.ok.injEq, Prod.mk.injEq] at hmv
+    obtain ⟨hst, e2, _⟩ := hmv
+    obtain ⟨pmax, hp, h1⟩ := shoot_acc_weight_nonzero v _ so hso hst (by simpa [effSc, hsce] using hone)
+    unfold mdWeights at hw
+    have hnn : ¬ cfg.ensNum < 0 := by omega
+    simp only [hnn, if_false] at hw
+    cases hcv : WF.cvVector trial cfg.interfaces cfg.movesTail cfg.cap with
+    | error e => rw [hcv] at hw; cases hw
+    | ok ws =>
+      rw [hcv] at hw
+      simp only [Except.mapError, Except.ok.injEq] at hw
+      subst hw
+      obtain ⟨pmax', i0, ilast, w', hp', _, _, hwk, hval⟩ := cvVector_get trial _ _ _ _ hcv k i.m false hm hf
+      rw [← e2] at hp'
+      rw [hp] at hp'
+      simp only [Option.some.injEq] at hp'
+      subst hp'
+      simp only [Bool.false_eq_true, if_false, Except.ok.injEq] at hval
+      refine ⟨ws, how, ?_⟩
+      rw [hwk, ← hval]
+      simpa using h1
+
+/-- **Own-ensemble weight, wire-fencing job, end to end.** Same for a wire-fencing ensemble (`mc_moves[k+1] == "wf"`,
+    first interface and cap of `md_items` are the ensemble's), no frame of the new path exactly on the cap: entry `k`
+    of the stored weight vector is positive. -/
+theorem run_md_one_wf_own_weight (v : Variant) (cfg : MdCfg) (i : WfIn) (o : MdOneOut)
+    (h : runMdOne v cfg (.wf i) = .ok o) (hs : o.status = .ACC)
+    (hone : ¬ (i.scEns.hasL = true ∧ i.scEns.hasR = true)) (hgen : ∀ y ∈ o.live, y ≠ capOf i)
+    (k : Nat) (hk : cfg.ensNum = (k : Int)) (hm : cfg.interfaces.dropLast[k]? = some i.m)
+    (hf : cfg.movesTail[k]? = some true) (h0 : cfg.interfaces.head? = some i.l)
+    (hcap : ∀ ilast, cfg.interfaces.getLast? = some ilast → capOr cfg.cap ilast = capOf i) :
+    ∃ ws w, o.weights = some ws ∧ ws[k]? = some w ∧ 0 < w := by
+  obtain ⟨trial, w, hmv, hw, how, hl⟩ := run_md_one_acc_weights v cfg _ o h hs
+  simp only [runMove] at hmv
+  split at hmv
+  · cases hmv
+  · rename_i wo hwo
+    simp only [Except.ok.injEq, Prod.mk.injEq] at hmv
+    obtain ⟨hst, e2, _⟩ := hmv
+    have hgen' : ∀ y ∈ wo.path, y ≠ capOf { i with sc := i.scEns } := by
+      intro y hy; exact hgen y (by rw [hl, ← e2]; exact hy)
+    obtain ⟨_, wv, hcw, hpos⟩ := wf_acc_weight_pos v _ wo hwo hst hone hgen'
+    unfold mdWeights at hw
+    have hnn : ¬ cfg.ensNum < 0 := by omega
+    simp only [hnn, if_false] at hw
+    cases hcv : WF.cvVector trial cfg.interfaces cfg.movesTail cfg.cap with
+    | error e => rw [hcv] at hw; cases hw
+    | ok ws =>
+      rw [hcv] at hw
+      simp only [Except.mapError, Except.ok.injEq] at hw
+      subst hw
+      obtain ⟨pmax', i0, ilast, w', _, hh, hlast, hwk, hval⟩ := cvVector_get trial _ _ _ _ hcv k i.m true hm hf
+      rw [h0] at hh
+      simp only [Option.some.injEq] at hh
+      subst hh
+      rw [hcap ilast hlast] at hval
+      simp only [if_true] at hval
+      rw [← e2] at hval
+      have e : capOf { i with sc := i.scEns } = capOf i := rfl
+      rw [e] at hcw
+      simp only at hcw
+      rw [hcw] at hval
+      simp only [Except.ok.injEq] at hval
+      subst hval
+      exact ⟨ws, wv, how, hwk, hpos⟩
+
+
+example : (runMdOne .repaired (mdCfgEx false) (.sh { exIn with scEns := some ⟨true, false⟩ })).toOption.map (·.weights)
+      = some (some [1, 1, 0]) ∧ (mdCfgEx false).ensNum = (1 : Nat) ∧ (mdCfgEx false).interfaces.dropLast[1]? = some exIn.m ∧
+    (mdCfgEx false).movesTail[1]? = some false := by
+  refine ⟨by rw [mdEx_eval]; rfl, rfl, rfl, rfl⟩
+
+example : (runMdOne .repaired (mdCfgEx true) (.wf wfEx)).toOption.map (fun o => (o.weights, o.live))
+      = some (some [1, 6, 0], [-1, 0, 1, 2, 3, 5]) ∧ (mdCfgEx true).movesTail[1]? = some true ∧
+    (mdCfgEx true).interfaces.head? = some wfEx.l ∧ capOr (mdCfgEx true).cap 4 = capOf wfEx := by
+  refine ⟨by rw [mdWfEx_eval]; rfl, rfl, rfl, rfl⟩
+
+/-! ### the acceptance rule outside the scope of `shoot_threshold`: absolute limit, loaded paths, `allowmaxlength` -/
+
+/-- **The absolute limit binds.** A reaching trial longer than `maxlength` is rejected whatever ξ is (drawn limit
+    `min(⌊n_old/ξ⌋ + 2, maxlength) ≤ maxlength`): the case `shoot_threshold` excludes by `hML`. -/
+theorem shoot_rejects_beyond_maxlength (v : Variant) (i : ShootIn)
+    (preB preF restB restF : List Int) (xB xF : Int) (T : ReachingTrial i preB preF restB restF xB xF)
+    (maxlen : Nat) (d2 : List Draw) (hd : drawMaxlen i = .ok (maxlen, d2))
+    (hbig : i.maxlength < preB.length + preF.length + 3) : ¬ Accepts v i := by
+  rw [shoot_accept_iff_limit v i maxlen d2 preB preF restB restF xB xF T hd]
+  have := drawMaxlen_le i maxlen d2 hd
+  omega
+
+/-- **Loaded paths and `allowmaxlength`.** No ξ is drawn; a reaching trial is accepted iff it fits the absolute limit
+    (`L_new ≤ maxlength` for the code as it is). This is the rule every sub-ensemble shoot of wire fencing follows. -/
+theorem shoot_accept_iff_allowmax (i : ShootIn)
+    (preB preF restB restF : List Int) (xB xF : Int) (T : ReachingTrial i preB preF restB restF xB xF)
+    (h : i.allowMax = true ∨ i.genLd = true) :
+    Accepts .repaired i ↔ preB.length + preF.length + 3 ≤ i.maxlength := by
+  have hd := (shoot_allowmax_ignores_xi .repaired i i.xi h).1
+  have := shoot_accept_iff_limit .repaired i _ _ preB preF restB restF xB xF T hd
+  simpa [slack] using this
+
+example : ReachingTrial { exIn with allowMax := true, maxlength := 4 } [3] [2] [7] [7] (-1) 5 ∧
+    drawMaxlen { exIn with allowMax := true, maxlength := 4 } = .ok (4, []) ∧ (4 : Nat) < [3].length + [2].length + 3 :=
+  ⟨⟨by decide, by decide, by decide, by decide, by decide, ⟨rfl, by decide, by decide⟩, ⟨rfl, by decide, by decide⟩,
+    by decide, by decide⟩, (shoot_allowmax_ignores_xi .repaired _ 0 (Or.inl rfl)).1, by decide⟩
+
+example : ReachingTrial { exIn with allowMax := true } [3] [2] [7] [7] (-1) 5 ∧
+    [3].length + [2].length + 3 ≤ ({ exIn with allowMax := true } : ShootIn).maxlength :=
+  ⟨⟨by decide, by decide, by decide, by decide, by decide, ⟨rfl, by decide, by decide⟩, ⟨rfl, by decide, by decide⟩,
+    by decide, by decide⟩, by decide⟩
 
 end Infretis.C09
